@@ -546,8 +546,8 @@ def plan (tier, seed):
     return sp
   sp = [dict(mode="exh", shard=i, nshards=4, big=False) for i in range(4)]
   sp += [dict(mode="exh", shard=i, nshards=32, big=True) for i in range(32)]
-  sp += [dict(mode="rand", n=60000, sub=i) for i in range(16)]
-  sp += [dict(mode="life", n=1500, sub=i) for i in range(8)]
+  sp += [dict(mode="rand", n=150000, sub=i) for i in range(32)]
+  sp += [dict(mode="life", n=6000, sub=i) for i in range(16)]
   return sp
 
 
